@@ -22,3 +22,17 @@ package types
 //@   modifies nothing
 //@   ensures result == isEmptyCodeHash(codeHash)
 //@   panics never
+
+//@ import ethtypes "github.com/ethereum/go-ethereum/core/types"
+
+// msg.go (*MsgEthereumTx).ValidateBasic: From parses as bech32, MarshalledTx decodes, validateBasic(ethTx) accepts (gas bounds,
+// non-negative 256-bit amounts and fee, fee cap >= tip cap, ...). TRUSTED SUMMARY: the last part is an uninterpreted predicate of
+// the bytes; the one consequence the ante clauses use (the gas bounds, msg.go validateBasic lines "gas < TxGas-1" / "gas >
+// MaxInt64") is stated.
+//@ ghost func ethTxBasicValid(b bytes) bool
+//@ func (msg *MsgEthereumTx) ValidateBasic() (err error)
+//@   assumed
+//@   modifies nothing
+//@   ensures (err == nil) == (bech32Valid(msg.From) && txDecodable(bytes(msg.MarshalledTx)) && ethTxBasicValid(bytes(msg.MarshalledTx)))
+//@   ensures err == nil ==> (20999 <= decGas(bytes(msg.MarshalledTx)) && decGas(bytes(msg.MarshalledTx)) < pow2(63))
+//@   panics only_if msg == nil
